@@ -12,7 +12,7 @@
 (* both outside the VIEW.                                                 *)
 EXTENDS Failover, Sequences, TLC
 
-CONSTANTS InitISRs, L0, PairSels, MaxOps
+CONSTANTS InitISRs, L0, PairSels, MaxOps, MaxPend
 VARIABLES last, nOps
 mcvars == <<vars, last, nOps>>
 
@@ -35,6 +35,7 @@ MCInit ==
   /\ lepoch = 1 /\ pepoch = 1 /\ e0 = 1
   /\ fo = NoFo /\ armed = FALSE /\ good = {}
   /\ obs = [a |-> "Open", err |-> ""]
+  /\ pend = <<>> /\ taint = FALSE
   /\ last = [a |-> "Open"] /\ nOps = 0
 
 \* pref = the in-sync follower the election picks (the least loaded broker: the
@@ -44,6 +45,20 @@ MCReport(w, ps, pref) ==
   /\ DoReportLeader(w, p[1], p[2])
   /\ pref = (IF leader' # leader THEN leader' ELSE "none")
   /\ Step([a |-> "Report", w |-> w, ps |-> ps, l |-> p[1], e |-> p[2], pref |-> pref])
+
+\* a report enters ReportLeader and passes the (leader, epoch) check ...
+MCReportCheck(w, ps) ==
+  LET p == Pair(ps) IN
+  /\ Len(pend) < MaxPend
+  /\ DoReportCheck(w, p[1], p[2])
+  /\ Step([a |-> "ReportCheck", w |-> w, ps |-> ps, l |-> p[1], e |-> p[2]])
+
+\* ... and the i-th of them reaches failoverStatus.report
+MCReportApply(i, pref) ==
+  /\ i \in 1..Len(pend)
+  /\ DoReportApply(i)
+  /\ pref = (IF leader' # leader THEN leader' ELSE "none")
+  /\ Step([a |-> "ReportApply", i |-> i, pref |-> pref])
 
 MCShrink(r, ps) ==
   LET p == Pair(ps) IN
@@ -58,10 +73,12 @@ MCExpand(r, ps) ==
 
 MCExpire == DoExpire /\ Step([a |-> "Expire"])
 MCLose == DoLoseControllership /\ Step([a |-> "Lose"])
-MCRemove == DoRemoveStream /\ Step([a |-> "Remove"])
+MCRemove == pend = <<>> /\ DoRemoveStream /\ Step([a |-> "Remove"])
 
 MCNext ==
   \/ \E w \in Reporters, ps \in PairSels, pref \in Replicas \cup {"none"} : MCReport(w, ps, pref)
+  \/ \E w \in Reporters, ps \in PairSels : MCReportCheck(w, ps)
+  \/ \E i \in 1..MaxPend, pref \in Replicas \cup {"none"} : MCReportApply(i, pref)
   \/ \E r \in Replicas, ps \in PairSels : MCShrink(r, ps)
   \/ \E r \in Replicas, ps \in PairSels : MCExpand(r, ps)
   \/ MCExpire
@@ -71,14 +88,19 @@ MCNext ==
 MCSpec == MCInit /\ [][MCNext]_mcvars
 
 \* every step, as the code performs it, satisfies what C07 demands of it
+\* (steps at or after the known finding - a report that took effect with a stale
+\* pair - are exempt here; reachability of the taint is reported separately)
 StepOK ==
   LET a == last' IN
+  taint' \/
   CASE a.a = "Report" -> P_ReportLeader(a.w, a.l, a.e)
+    [] a.a = "ReportCheck" -> P_ReportCheck(a.w, a.l, a.e)
+    [] a.a = "ReportApply" -> P_ReportApply(a.i)
     [] a.a = "Shrink" -> P_ShrinkISR(a.r, a.l, a.e)
     [] a.a = "Expand" -> P_ExpandISR(a.r, a.l, a.e)
     [] a.a = "Remove" -> P_RemoveStream
     [] OTHER -> P_Quiet
 StepsOK == [][StepOK]_mcvars
 
-MCView == <<exists, isr, leader, lepoch, pepoch, fo, armed, good, nOps>>
+MCView == <<exists, isr, leader, lepoch, pepoch, fo, armed, good, pend, taint, nOps>>
 =============================================================================
